@@ -87,3 +87,29 @@ Proof.
   - destruct (accepts rs' inc) eqn:E2; [|reflexivity].
     apply (accepts_perm_true rs' rs inc (Permutation_sym Hp)) in E2. congruence.
 Qed.
+
+(* ---- C10: the sort is stable, like Python's sorted(): readers with the same message ID
+   keep the order in which they were supplied *)
+Definition has_mid (k : N) (r : reader) : bool := N.eqb (rd_mid r) k.
+
+Lemma insert_reader_filter k x l :
+  filter (has_mid k) (insert_reader x l) =
+  if has_mid k x then x :: filter (has_mid k) l else filter (has_mid k) l.
+Proof.
+  induction l as [|y r IH]; cbn [insert_reader].
+  - cbn [filter]. reflexivity.
+  - destruct (N.ltb (rd_mid y) (rd_mid x)) eqn:E.
+    + cbn [filter]. rewrite IH. unfold has_mid in *.
+      destruct (N.eqb_spec (rd_mid x) k) as [Ex|Ex], (N.eqb_spec (rd_mid y) k) as [Ey|Ey];
+        try reflexivity.
+      apply N.ltb_lt in E. lia.
+    + cbn [filter]. reflexivity.
+Qed.
+
+Theorem sort_readers_stable k l :
+  filter (has_mid k) (sort_readers l) = filter (has_mid k) l.
+Proof.
+  induction l as [|x l IH]; [reflexivity|].
+  change (sort_readers (x :: l)) with (insert_reader x (sort_readers l)).
+  rewrite insert_reader_filter, IH. cbn [filter]. reflexivity.
+Qed.
